@@ -476,7 +476,7 @@ fn probe_sum_ref(ctx: &mut Ctx) {
     }
     let ok = matches!(status, Some(s) if s.success());
     let lines: Vec<&str> = out.lines().collect();
-    if !ok || lines.len() < 9 {
+    if !ok || lines.len() < 15 {
         ctx.oracle_fail(
             "sum-product-by-ref",
             "Sum<&T>/Product<&T> over an iterator of references does not terminate (or crashes)",
@@ -490,7 +490,9 @@ fn probe_sum_ref(ctx: &mut Ctx) {
             continue;
         }
         if w[0].starts_with("tw:") {
-            ctx.case("sum_ref", false, &format!("tw {} sum_1to5", &w[0][3..]), &format!("{} {}", w[1], w[2]));
+            if w[1] != "ok" || w[2] != "ok" {
+                ctx.oracle_fail("sum-product-by-ref", "Sum<&T>/Product<&T> of a tower type differs from the fold", json!({"line": l}));
+            }
         } else {
             ctx.case("sum_ref", false, &format!("pf {} sum 0x1 0x2 0x3 0x4 0x5", w[0]), w[1]);
             ctx.case("product_ref", false, &format!("pf {} product 0x1 0x2 0x3 0x4 0x5", w[0]), w[2]);
